@@ -719,13 +719,6 @@ class TimeExceeded (icmp_base):
     if raw is not None: self.parse(raw)
     self._init(kw)
 
-  def _fields (self):
-    f = ['mtu']
-    r = {}
-    for ff in f:
-      r[ff] = getattr(self, ff)
-    return r
-
   @classmethod
   def unpack_new (cls, raw, offset = 0, buf_len = None, prev = None):
     o = cls()
@@ -749,6 +742,9 @@ class TimeExceeded (icmp_base):
 
   def hdr (self, payload):
     return struct.pack('!I', 0) # Unused
+
+  def pack (self):
+    return packet_base.pack(self)
 
 
 class PacketTooBig (icmp_base):
@@ -779,7 +775,7 @@ class PacketTooBig (icmp_base):
     if buf_len is None: buf_len = len(raw)
 
     try:
-      o.mtu = struct.unpack_from("!I", raw, offset)
+      (o.mtu,) = struct.unpack_from("!I", raw, offset)
       offset += 4
 
       o.next = raw[offset:buf_len]
@@ -795,6 +791,9 @@ class PacketTooBig (icmp_base):
 
   def hdr (self, payload):
     return struct.pack('!I', self.mtu)
+
+  def pack (self):
+    return packet_base.pack(self)
 
 
 class unpack_new_adapter (object):
